@@ -18,7 +18,7 @@ MUTANTS = [
     ("C15", "MultiplyOrchestration", "graph_operations/multiplication.py", "        if len(copy_names) != factor - 1:", "        if len(copy_names) > factor - 1:"),
     ("C15", "DivideCounts", "graph_operations/multiplication.py", "gfa_line.get(count_tag) // factor", "gfa_line.get(count_tag) // (factor - 1)"),
     ("C15", "DivideCounts", "graph_operations/multiplication.py", 'for count_tag in ["KC", "RC", "FC"]:', 'for count_tag in ["KC", "RC"]:'),
-    ("C15", "ComputeCopyNames", "graph_operations/multiplication.py", "      while name in self.names or self.line(name) is not None:", "      while name in self.names:"),
+    ("C15", "ComputeCopyNames", "graph_operations/multiplication.py", "      while name in self.names or self.line(name) is not None or \\\n          name in reserved:", "      while name in self.names or \\\n          name in reserved:"),
     ("C15", "ComputeCopyNames", "graph_operations/multiplication.py", "    for i in range(first,factor+first-1):", "    for i in range(first,factor+first):"),
     ("C15", "AutoSelectDistributeEnd", "graph_operations/multiplication.py", "    elif esize < 2:\n      if bsize < 2:", "    elif esize < 2:\n      if bsize < 3:"),
     ("C13", "SegmentSyntaxFromFields", "line/segment/segment.py", "      n_positionals = i-1", "      n_positionals = i"),
@@ -34,7 +34,14 @@ MUTANTS = [
     ("C15", "DivideSegmentAndConnectionCounts", "graph_operations/multiplication.py", "        if not any(l is p for p in processed_circulars):", "        if any(l is p for p in processed_circulars):"),
     ("C15", "CloneSegmentAndConnections", "graph_operations/multiplication.py", "      processed.append(l)\n", ""),
     ("C15", "CloneSegmentAndConnections", "graph_operations/multiplication.py", "      if lc.to_segment == segment.name:\n        lc.to_segment = clone_name\n", ""),
-    ("C15", "CloneSegmentAndConnections", "graph_operations/multiplication.py", "        lc.name = self._compute_copy_names(lc.name, 2)[0]\n", "        pass\n"),
+    ("C15", "CloneSegmentAndConnections", "graph_operations/multiplication.py", "        lc.name = self._compute_copy_names(lc.name, 2, reserved)[0]\n", "        pass\n"),
+    ("C15", "DistributeLinks", "graph_operations/multiplication.py", "      to_keep = links_signatures[i:i+diff+1]", "      to_keep = links_signatures[i:i+diff]"),
+    ("C15", "DistributeLinks", "graph_operations/multiplication.py", "        if l_sig not in to_keep and l.is_connected():", "        if l_sig in to_keep and l.is_connected():"),
+    ("C15", "DistributeLinks", "graph_operations/multiplication.py", "    diff = max([len(et_links)-factor, 0])", "    diff = max([len(et_links)-factor+1, 0])"),
+    ("C15", "DistributeLinks", "graph_operations/multiplication.py", "      to_keep = links_signatures[i:i+diff+1]", "      to_keep = links_signatures[i+1:i+diff+1]"),
+    ("C15", "DistributeLinks", "graph_operations/multiplication.py", "    if factor < 2:\n      return\n    end_type", "    if factor < 3:\n      return\n    end_type"),
+    ("C13", "AddLineUnknownVersion", "lines/creators.py", '      self._check_version_allowed_by_dialect(gfa_line.version)\n', ''),
+    ("C18", "SetField", "line/common/field_data.py", "        if self.vlevel >= 3:\n          gfapy.Field._validate_gfa_field(value, datatype, fieldname)\n        self._datatype[fieldname] = datatype", "        self._datatype[fieldname] = datatype"),
     ("C17", "FindEdgeFromPathToSegment", "line/group/ordered/captured_path.py", "      if any(e.line is edge for e in edges):\n        # (an edge of the segment with itself is listed once per end)\n        continue\n", ""),
     ("C17", "FindEdgeFromPathToSegment", "line/group/ordered/captured_path.py", "    elif len(edges) > 1:\n      raise gfapy.NotUniqueError(", "    elif len(edges) > 2:\n      raise gfapy.NotUniqueError("),
     ("C17", "FindEdgeFromPathToSegment", "line/group/ordered/captured_path.py", '        edges.append(gfapy.OrientedLine(edge, "-"))', '        edges.append(gfapy.OrientedLine(edge, "+"))'),
@@ -44,7 +51,7 @@ MUTANTS = [
     ("C16", "Topology_n_dead_ends", "graph_operations/topology.py", "      if not s.dovetails_R: n+=1", "      if s.dovetails_R: n+=1"),
     ("C16", "Topology_n_containments", "graph_operations/topology.py", "      n += len(s.edges_to_containers)", "      n += len(s.edges_to_contained)"),
     ("C16", "Topology_n_dovetails", "graph_operations/topology.py", "      n += len(s.dovetails_R)\n    return n // 2", "      n += len(s.dovetails_R)\n    return n"),
-    ("C20", "SetField", "line/common/field_data.py", "        self._datatype[fieldname] = \\\n            gfapy.Field._get_default_gfa_tag_datatype(value)\n", ""),
+    ("C20", "SetField", "line/common/field_data.py", "        self._datatype[fieldname] = datatype\n", ""),
     ("C20", "SetField", "line/common/field_data.py", "    elif (self.vlevel == 0) or self._is_valid_custom_tagname(fieldname):", "    elif (self.vlevel <= 1) or self._is_valid_custom_tagname(fieldname):"),
     ("C20", "SetExistingField", "line/common/field_data.py", "        if fieldname not in self.positional_fieldnames:\n", "        if fieldname in self.positional_fieldnames:\n"),
     ("C20", "DefaultTagDatatypeTable", "field/field.py", '    (builtins.dict , "J"),\n', '    (builtins.dict , "Z"),\n'),
